@@ -61,8 +61,10 @@ Section Hash.
   Definition is_lazy_enabled (bt : btree) : bool :=
     match bt_lazy bt with Some s => lz_enabled s | None => false end.
 
+  (* a key (name hash) that is already present is refused (ErrBTreeRecordExists), then the capacity check *)
   Definition insert_record (name : string) (id : N) (bt : btree) : res * btree :=
-    if max_records <=? N.of_nat (length (bt_records bt)) then (RErr, bt)
+    if existsb (fun r => fst r =? hash name) (bt_records bt) then (RErr, bt)
+    else if max_records <=? N.of_nat (length (bt_records bt)) then (RErr, bt)
     else (ROk, mkBtree (insert_sorted (hash name, id) (bt_records bt))
                        (wrap64 (bt_total bt + 1)) (wrap16 (bt_nroot bt + 1)) (bt_lazy bt)).
 
